@@ -1,0 +1,194 @@
+//go:build verif
+
+package postscript
+
+// Machine-checked contracts for package postscript (read by /verif/govc
+// only; never compiled into a normal build).  The Go declarations below are
+// ghost (specification) functions; the //@ blocks are the contracts.
+
+// objWF0: a dictionary object is never the nil map, a builtin never the nil
+// function.
+func objWF0(o Object) bool {
+	if d, ok := o.(Dict); ok {
+		return d != nil
+	}
+	if b, ok := o.(builtin); ok {
+		return b != nil
+	}
+	return true
+}
+
+// isBrace: the two operator tokens that never become part of a procedure.
+func isBrace(o Object) bool {
+	if op, ok := o.(Operator); ok {
+		return op == "{" || op == "}"
+	}
+	return false
+}
+
+// objWF is the value invariant of every Object stored in memory.
+func objWF(o Object) bool {
+	return objWF0(o) && !isBrace(o)
+}
+
+// dictWF is the value invariant of every Dict stored in a slice or map.
+func dictWF(d Dict) bool {
+	return d != nil
+}
+
+// intpWF0 is the quantifier-free part of the representation invariant of an
+// *Interpreter.
+func intpWF0(intp *Interpreter) bool {
+	return intp.SystemDict != nil && intp.UserDict != nil && intp.ErrorDict != nil &&
+		intp.InternalDict != nil && intp.FontDirectory != nil && intp.CMapDirectory != nil &&
+		intp.Resources != nil &&
+		len(intp.DictStack) >= 2
+}
+
+// scanWF is the representation invariant of a *scanner.
+func scanWF(s *scanner) bool {
+	return s.src != nil && 0 <= s.pos && s.pos <= s.used && s.used <= len(s.buf) && len(s.buf) >= 1
+}
+
+// topScanWF: the innermost active scanner is well-formed.
+func topScanWF(intp *Interpreter) bool {
+	n := len(intp.scanners)
+	return n >= 1 && intp.scanners[n-1] != nil && scanWF(intp.scanners[n-1])
+}
+
+// intpWF adds: the saved procedure starts are non-decreasing positions inside
+// the operand stack.
+//@ define intpWF(intp) = intpWF0(intp) &&
+//@   (forall k :: 0 <= k && k < len(intp.procStart) ==> 0 <= intp.procStart[k] && intp.procStart[k] <= len(intp.Stack)) &&
+//@   (forall k, l :: 0 <= k && k <= l && l < len(intp.procStart) ==> intp.procStart[k] <= intp.procStart[l])
+
+//@ valueinv Object objWF zero-safe
+//@ valueinv Dict dictWF
+
+//@ typeinv Interpreter intpWF
+//@ typeinv scanner scanWF
+
+//@ func type:builtin
+//@ params intp
+//@ requires intp != nil && intpWF(intp) && topScanWF(intp) && len(intp.procStart) == 0
+//@ ensures intpWF(intp) && topScanWF(intp)
+//@ ensures len(intp.errors) == old(len(intp.errors))
+//@ ensures len(intp.scanners) == old(len(intp.scanners)) && (forall i :: 0 <= i && i < len(intp.scanners) ==> intp.scanners[i] == old(intp.scanners[i]))
+
+//@ sweep C01 builtin.go interpreter.go scanner.go eexec.go cmap.go error.go -stackString -objectString -objectString2 -Error
+
+// ---------------------------------------------------------------------
+// interpreter.go
+
+//@ func newScanner
+//@ requires r != nil
+//@ ensures result != nil && scanWF(result)
+
+//@ func (*Interpreter).Execute
+//@ requires r != nil
+
+//@ func NewInterpreter
+//@ ensures result != nil && intpWF(result)
+
+//@ func makeSystemDict
+//@ ensures result != nil
+//@ ensures has(result, Name("userdict")) && isType(result[Name("userdict")], Dict) && result[Name("userdict")].(Dict) != nil
+//@ ensures has(result, Name("errordict")) && isType(result[Name("errordict")], Dict) && result[Name("errordict")].(Dict) != nil
+//@ ensures has(result, Name("FontDirectory")) && isType(result[Name("FontDirectory")], Dict) && result[Name("FontDirectory")].(Dict) != nil
+
+//@ func (*Interpreter).executeOne
+//@ requires objWF0(obj) && topScanWF(intp)
+//@ ensures topScanWF(intp)
+//@ ensures len(intp.errors) == old(len(intp.errors))
+//@ ensures len(intp.scanners) == old(len(intp.scanners)) && (forall i :: 0 <= i && i < len(intp.scanners) ==> intp.scanners[i] == old(intp.scanners[i]))
+//@ loop 1 invariant objWF0(obj) && topScanWF(intp)
+//@ loop 1 invariant len(intp.errors) == old(len(intp.errors))
+//@ loop 1 invariant len(intp.scanners) == old(len(intp.scanners)) && (forall i :: 0 <= i && i < len(intp.scanners) ==> intp.scanners[i] == old(intp.scanners[i]))
+//@ loop 2 invariant topScanWF(intp)
+//@ loop 2 invariant len(intp.errors) == old(len(intp.errors))
+//@ loop 2 invariant len(intp.scanners) == old(len(intp.scanners)) && (forall i :: 0 <= i && i < len(intp.scanners) ==> intp.scanners[i] == old(intp.scanners[i]))
+
+//@ func (*Interpreter).executeScanner
+//@ requires s != nil
+//@ ensures len(intp.scanners) == old(len(intp.scanners)) && (forall i :: 0 <= i && i < len(intp.scanners) ==> intp.scanners[i] == old(intp.scanners[i]))
+//@ ensures len(intp.errors) == old(len(intp.errors))
+//@ loop 1 invariant len(intp.scanners) == old(len(intp.scanners)) + 1 && intp.scanners[len(intp.scanners)-1] == s
+//@ loop 1 invariant forall i :: 0 <= i && i < len(intp.scanners) - 1 ==> intp.scanners[i] == old(intp.scanners[i])
+//@ loop 1 invariant len(intp.errors) == old(len(intp.errors))
+
+//@ func (*Interpreter).load
+//@ ensures result1 == nil ==> objWF(result0)
+//@ loop 1 invariant j < len(intp.DictStack)
+//@ loop 1 decreases j + 1
+
+// ---------------------------------------------------------------------
+// scanner.go
+
+//@ func (*scanner).PeekN
+//@ requires n >= 0
+
+//@ func (*scanner).BeginEexec
+//@ requires ivLen >= 0
+
+//@ func (*scanner).ReadBase85String
+//@ loop 2 invariant 0 <= pos && pos <= 4
+
+//@ func (*scanner).Read
+//@ ensures 0 <= result0 && result0 <= len(p)
+
+//@ func (*scanner).ScanToken
+//@ ensures result1 == nil ==> objWF0(result0)
+
+//@ func parseNumber
+//@ ensures result1 == nil ==> objWF0(result0)
+
+//@ func ReadCMap
+//@ requires r != nil
+
+// ---------------------------------------------------------------------
+// builtin.go
+
+//@ func bWhere
+//@ loop 1 invariant j < len(intp.DictStack)
+//@ loop 1 decreases j + 1
+
+//@ func bCleartomark
+//@ loop 1 invariant k < len(intp.Stack)
+//@ loop 1 decreases k + 1
+
+//@ func bListEnd
+//@ loop 1 invariant i < n && n == len(intp.Stack)
+//@ loop 1 decreases i + 1
+
+//@ func bDictEnd
+//@ loop 1 invariant i < n && n == len(intp.Stack)
+//@ loop 1 decreases i + 1
+//@ loop 2 invariant n == len(intp.Stack) && markPos >= 0 && markPos < n && (n-markPos)%2 == 1 && (i-markPos)%2 == 1 && i > markPos && d != nil
+//@ loop 2 decreases n - i + 1
+
+//@ func equal
+//@ requires objWF(a) && objWF(b)
+
+//@ func equal$1
+//@ ensures result1 == nil ==> isType(result0, float64) || isType(result0, string)
+
+//@ func isSameDict
+//@ requires a != nil && b != nil
+
+// ---------------------------------------------------------------------
+// cmap.go: comparators handed to sort.Slice by endcmap (init$2)
+
+//@ func init$2$1
+//@ requires intp != nil && intp.cmapMappings != nil && 0 <= i && i < len(intp.cmapMappings.CodeSpaceRanges) && 0 <= j && j < len(intp.cmapMappings.CodeSpaceRanges)
+//@ func init$2$2
+//@ requires intp != nil && intp.cmapMappings != nil && 0 <= i && i < len(intp.cmapMappings.CidChars) && 0 <= j && j < len(intp.cmapMappings.CidChars)
+//@ func init$2$3
+//@ requires intp != nil && intp.cmapMappings != nil && 0 <= i && i < len(intp.cmapMappings.CidRanges) && 0 <= j && j < len(intp.cmapMappings.CidRanges)
+//@ func init$2$4
+//@ requires intp != nil && intp.cmapMappings != nil && 0 <= i && i < len(intp.cmapMappings.BfChars) && 0 <= j && j < len(intp.cmapMappings.BfChars)
+//@ func init$2$5
+//@ requires intp != nil && intp.cmapMappings != nil && 0 <= i && i < len(intp.cmapMappings.BfRanges) && 0 <= j && j < len(intp.cmapMappings.BfRanges)
+//@ func init$2$6
+//@ requires intp != nil && intp.cmapMappings != nil && 0 <= i && i < len(intp.cmapMappings.NotdefChars) && 0 <= j && j < len(intp.cmapMappings.NotdefChars)
+//@ func init$2$7
+//@ requires intp != nil && intp.cmapMappings != nil && 0 <= i && i < len(intp.cmapMappings.NotdefRanges) && 0 <= j && j < len(intp.cmapMappings.NotdefRanges)
